@@ -51,6 +51,10 @@ type callTokenData struct {
 	CallID    string // 32-char lowercase hex; binds this call to its cursors
 	SchemaIPC []byte // serialized output schema for dynamic methods; nil for static
 	StreamID  string // stable across init/continuations of one stream call
+	// InputSchemaIPC is the input schema a dynamic method declared through
+	// StreamResult.InputSchema (nil otherwise). The pipe transports cast every
+	// input batch against it; carrying it here lets /exchange do the same.
+	InputSchemaIPC []byte
 }
 
 // cursorTokenData is the advancing half: re-minted every turn under
@@ -65,8 +69,9 @@ type cursorTokenData struct {
 // resolvedCall is what an authenticated CallID resolves to — either from the
 // cache or by opening the client's call token.
 type resolvedCall struct {
-	SchemaIPC []byte
-	StreamID  string
+	SchemaIPC      []byte
+	StreamID       string
+	InputSchemaIPC []byte
 }
 
 // defaultCallStateCacheEntries bounds the per-process call cache.
@@ -454,6 +459,12 @@ func normalizeTokenKey(key []byte) []byte {
 // packCallToken seals the half of a stream's state that is fixed for the
 // life of the call. Minted once, by /init; never re-issued.
 func (h *HttpServer) packCallToken(callID string, outputSchema *arrow.Schema, auth *AuthContext, streamID string) ([]byte, error) {
+	return h.packCallTokenWithInput(callID, outputSchema, nil, auth, streamID)
+}
+
+// packCallTokenWithInput is packCallToken for a method whose input schema is
+// only known at init time (MethodDynamic with StreamResult.InputSchema).
+func (h *HttpServer) packCallTokenWithInput(callID string, outputSchema, dynamicInputSchema *arrow.Schema, auth *AuthContext, streamID string) ([]byte, error) {
 	data := callTokenData{
 		CreatedAt: time.Now().Unix(),
 		CallID:    callID,
@@ -462,13 +473,16 @@ func (h *HttpServer) packCallToken(callID string, outputSchema *arrow.Schema, au
 	if outputSchema != nil {
 		data.SchemaIPC = serializeSchema(outputSchema)
 	}
+	if dynamicInputSchema != nil {
+		data.InputSchemaIPC = serializeSchema(dynamicInputSchema)
+	}
 	token, err := h.sealToken(callTokenVersion, &data, callTokenAad(auth))
 	if err != nil {
 		return nil, err
 	}
 	// Warm the cache with the values we already hold, so this stream's first
 	// continuation does not have to open the token it was just handed.
-	h.callStates.putUntil(callID, auth, &resolvedCall{SchemaIPC: data.SchemaIPC, StreamID: streamID},
+	h.callStates.putUntil(callID, auth, &resolvedCall{SchemaIPC: data.SchemaIPC, StreamID: streamID, InputSchemaIPC: data.InputSchemaIPC},
 		time.Unix(data.CreatedAt, 0).Add(h.tokenTTL))
 	return token, nil
 }
@@ -540,7 +554,7 @@ func (h *HttpServer) resolveCall(cursor *cursorTokenData, callToken []byte, auth
 		return nil, &RpcError{Type: "RuntimeError", Message: "Malformed state token"}
 	}
 
-	got := &resolvedCall{SchemaIPC: data.SchemaIPC, StreamID: data.StreamID}
+	got := &resolvedCall{SchemaIPC: data.SchemaIPC, StreamID: data.StreamID, InputSchemaIPC: data.InputSchemaIPC}
 	// Cache only for what is left of the call token's life: an entry created
 	// on a miss must not outlive the token it stands in for.
 	h.callStates.putUntil(cursor.CallID, auth, got, time.Unix(data.CreatedAt, 0).Add(h.tokenTTL))
